@@ -1407,7 +1407,18 @@ class CodeGenerator(NodeVisitor):
         self.buffer(filter_frame)
         self.blockvisit(node.body, filter_frame)
         self.start_write(frame, node)
+
+        # The filter can return a plain string. Its result is output like
+        # any other value.
+        if frame.eval_ctx.volatile:
+            self.write("(escape if context.eval_ctx.autoescape else str)(")
+        elif frame.eval_ctx.autoescape:
+            self.write("escape(")
+        else:
+            self.write("str(")
+
         self.visit_Filter(node.filter, filter_frame)
+        self.write(")")
         self.end_write(frame)
         self.leave_frame(filter_frame)
 
@@ -1671,10 +1682,12 @@ class CodeGenerator(NodeVisitor):
         self.blockvisit(node.body, block_frame)
         self.newline(node)
         self.visit(node.target, frame)
-        self.write(" = (Markup if context.eval_ctx.autoescape else identity)(")
         if node.filter is not None:
+            # The filter can return a plain string, which is not safe.
+            self.write(" = (escape if context.eval_ctx.autoescape else identity)(")
             self.visit_Filter(node.filter, block_frame)
         else:
+            self.write(" = (Markup if context.eval_ctx.autoescape else identity)(")
             self.write(f"concat({block_frame.buffer})")
         self.write(")")
         self.pop_assign_tracking(frame)
